@@ -1,6 +1,7 @@
 ------------------------------- MODULE MC_Zip -------------------------------
 EXTENDS ZipWalk, Json
-CONSTANTS Names, Sizes, Extras, MaxEntries
+CONSTANTS Names, Sizes, Extras, MaxEntries,
+          Focus     \* TRUE: OOXML packages of 6-7 entries, the marker part late (the "first six entries" boundary)
 VARIABLES a, d      \* archive (sequence of entries), descriptor length used by the writer (0 or 16)
 
 NamesQuick == {"ct", "rels", "docprops", "word", "xl", "ppt", "manifest", "android", "mimetype", "nm_Word", "u1", "u12", "u40"}
@@ -8,8 +9,11 @@ NamesAll == {"ct", "rels", "docprops", "customxml", "trash", "word", "xl", "ppt"
              "nm_word", "nm_Word", "nm_xl", "nm_manifest", "nm_mimetypes", "u1", "u12", "u40", "u200"}
 
 Init == a = <<>> /\ d \in {0, 16}
+Bookkeeping == {"rels", "docprops", "customxml", "u12"}
+FocusNames(pos) == IF pos = 1 THEN {"ct"} ELSE IF pos <= 5 THEN Bookkeeping ELSE IF pos = 6 THEN {"word", "xl", "ppt", "u12"} ELSE {"word", "u12"}
 Next == /\ Len(a) < MaxEntries
-        /\ \E n \in Names, c \in Sizes, x \in Extras : a' = Append(a, [name |-> n, extra |-> x, csize |-> c, desc |-> d])
+        /\ \E n \in (IF Focus THEN FocusNames(Len(a) + 1) ELSE Names), c \in Sizes, x \in Extras :
+               a' = Append(a, [name |-> n, extra |-> x, csize |-> c, desc |-> d])
         /\ UNCHANGED d
 Spec == Init /\ [][Next]_<<a, d>>
 
@@ -20,5 +24,5 @@ DesignC19 == InScope => ModelClass(a) \in Allowed(a)
 DesignC01 == InScope => InBounds(a)
 \* simulation runs (MaxEntries > 4) print full-length archives only: TLC evaluates invariants on
 \* every generated successor, not only on the one it follows
-Dump == (InScope /\ (MaxEntries <= 4 \/ Len(a) = MaxEntries)) => PrintT(ToJson([a |-> [i \in 1..Len(a) |-> <<a[i].name, a[i].csize, a[i].extra>>], d |-> d, m |-> ModelClass(a), ok |-> Allowed(a), len |-> FileLen(a)]))
+Dump == (InScope /\ (IF Focus THEN Len(a) >= 6 ELSE (MaxEntries <= 4 \/ Len(a) = MaxEntries))) => PrintT(ToJson([a |-> [i \in 1..Len(a) |-> <<a[i].name, a[i].csize, a[i].extra>>], d |-> d, m |-> ModelClass(a), ok |-> Allowed(a), len |-> FileLen(a)]))
 =============================================================================
